@@ -88,6 +88,7 @@ NB == Len(AlphaB)
 NC == Len(AlphaC)
 Keep(k) == IF Thin <= 1 THEN TRUE ELSE k % Thin = 0
 Keep10(k) == IF Thin <= 10 THEN TRUE ELSE k % (Thin \div 10) = 0
+KeepN(k, n) == k % (Thin * n) = 0
 
 VecDA(C) ==
   \/ C = 0 /\ v' = <<"dec", <<>> >>
@@ -238,8 +239,44 @@ FrToks == <<<<51, 47, 52>>, <<47, 52>>, <<51, 47>>, <<51, 47, 52, 47, 53>>, <<32
             <<49, 47, 120>>, <<120, 47, 49>>, <<47>>, <<49, 101, 50, 47, 52>>, <<105, 110, 102, 47, 50>>, <<49, 47, 105, 110, 102>>, <<53>>, <<>> >>
 SInt == {0, 1, 9, 10, 99, 100, 999, 123456, 999999999}
 PLAlpha == <<97, 61, 35, 32, 98, 9>>
+WSB == {9, 10, 11, 12, 13, 32}                    \* the white-space bytes
 NPL == Len(PLAlpha)
+\* val<bool>: the documented words, in three spellings of case, and near misses
+BoolWords == <<<<102, 97, 108, 115, 101>>, <<102>>, <<110, 105, 108>>, <<110, 111>>, <<110>>, <<111, 102, 102>>, <<>>,
+               <<116, 114, 117, 101>>, <<116>>, <<121, 101, 115>>, <<121>>, <<111, 110>> >>
+BoolMiss == <<<<48>>, <<49>>, <<50>>, <<48, 48>>, <<48, 49>>, <<43, 49>>, <<45, 48>>, <<45, 49>>, <<49, 48>>, <<49, 46, 48>>, <<48, 46, 48>>, <<49, 101, 48>>,
+              <<121, 101>>, <<111, 102>>, <<110, 111, 108>>, <<116, 114, 117>>, <<111, 110, 110>>, <<120>>, <<49, 120>>, <<116, 114, 32, 117, 101>>,
+              <<110, 105, 108, 108>>, <<102, 97, 108, 115>>, <<121, 101, 115, 115>>, <<111, 110, 111>>, <<110, 97, 110>>, <<116, 0>>, <<57, 57, 57, 57, 57, 57, 57, 57, 57, 57, 57>> >>
+CaseOf(k, w) == CASE k = 0 -> w [] k = 1 -> UpperS(w) [] OTHER -> IF w = <<>> THEN w ELSE <<Upper(w[1])>> \o Tail(w)
+IntToks == <<<<53>>, <<48>>, <<45, 53>>, <<43, 53>>, <<48, 48, 55>>, <<>>, <<45>>, <<43>>, <<53, 46>>, <<53, 46, 48>>, <<49, 101, 53>>, <<48, 120, 49, 48>>,
+             <<110, 97, 110>>, <<105, 110, 102>>, <<45, 105, 110, 102>>, <<49, 50, 32, 51>>, <<57, 57, 57, 57, 57, 57, 57, 57, 57>>, <<120>>, <<53, 120>>, <<45, 48>>,
+             <<50, 49, 52, 55, 52, 56, 51, 54, 52, 55>>, <<57, 57, 57, 57, 57, 57, 57, 57, 57, 57, 57>>, <<43, 45, 53>>, <<52, 50>>, <<45, 49, 50, 51, 52, 53>> >>
+WSPair(l, r) == l = 1 \/ r = 1 \/ l = r
+\* numeric overloads of DMS: whole degrees, whole minutes, hundredths of a second
+NumD == {0, 1, 4, 20, 89, 179, 359, 1000}
+NumM == {0, 1, 30, 59, 60, 75}
+NumS == {0, 1, 4050, 5999, 6000, 7500}
+VecOvl(C) ==
+  \/ \E a \in InChunk(1..Len(BoolWords), C), k \in 0..2, l \in 1..Len(WS), r \in 1..Len(WS) :
+       /\ WSPair(l, r) /\ (k = 0 \/ Len(BoolWords[a]) > 0)
+       /\ v' = <<"vb", WS[l] \o CaseOf(k, BoolWords[a]) \o WS[r]>>
+  \/ \E a \in InChunk(1..Len(BoolMiss), C), l \in {1, 2}, r \in {1, 4} : v' = <<"vb", WS[l] \o BoolMiss[a] \o WS[r]>>
+  \/ \E a \in InChunk(1..Len(IntToks), C), l \in 1..Len(WS), r \in 1..Len(WS) :
+       /\ WSPair(l, r) /\ v' = <<"vi", WS[l] \o IntToks[a] \o WS[r]>>
+  \/ \E k \in InChunk(0..35, C), a \in 1..Len(WS), b \in 1..Len(WS) :
+       /\ WSPair(a, b)
+       /\ v' = <<"vs", WS[a] \o (IF k < 6 THEN <<>> ELSE <<PLAlpha[(k \div 6)], PLAlpha[(k % 6) + 1], 32, 97>>) \o WS[b]>>
+  \/ \E D \in InChunk(NumD, C), nargs \in 1..3, dneg \in B2, mneg \in B2, sneg \in B2, M \in NumM, S \in NumS :
+       /\ (nargs < 3 => S = 0 /\ ~sneg) /\ (nargs < 2 => M = 0 /\ ~mneg)
+       /\ D <= 4 \/ (mneg = dneg /\ sneg = dneg)
+       /\ nargs < 3 \/ Keep(D + M + S + (IF dneg THEN 1 ELSE 0) + (IF mneg THEN 2 ELSE 0))
+       /\ v' = <<"dn", nargs, dneg, D, mneg, M, sneg, S>>
+  \/ \E D \in InChunk(NumD, C), form \in {2, 3}, neg \in B2, M \in {0, 1, 30, 59}, S \in {0, 1, 4050, 5999} :
+       /\ Keep(D + M + S + form) \/ S = 0
+       /\ v' = <<"sp", form, neg, D, M, S>>
+
 VecNum(C) ==
+  \/ VecOvl(C)
   \/ \E a \in InChunk(1..Len(NumToks), C), l \in 1..Len(WS), r \in 1..Len(WS) :
        LET s == WS[l] \o NumToks[a] \o WS[r]  x == Val(s) IN
        v' = <<"val", s, IF x[1] = "num" THEN <<1, IF x[2] THEN 1 ELSE 0, x[3], x[4]>> ELSE <<0, 0, 0, 0>> >>
@@ -254,6 +291,17 @@ VecNum(C) ==
   \/ \E k \in InChunk(0..(NPL * NPL - 1), C), c \in 1..NPL, d \in 1..NPL, e \in 0..NPL, eq \in {0, 61}, cm \in {0, 35} :
        /\ Keep(k + c + 3 * d + 5 * e)
        /\ v' = <<"pl", <<PLAlpha[(k \div NPL) + 1], PLAlpha[(k % NPL) + 1], PLAlpha[c], PLAlpha[d]>> \o (IF e = 0 THEN <<>> ELSE <<PLAlpha[e]>>), eq, cm>>
+  \* "the first white space" separates key and value: every white-space byte, alone and doubled, also around the line,
+  \* around an explicit delimiter and in front of a comment
+  \/ \E w \in InChunk(WSB, C), w2 \in WSB \cup {0}, form \in 0..4, eq \in {0, 61}, cm \in {0, 35} :
+       LET W == IF w2 = 0 THEN <<w>> ELSE <<w, w2>>
+           line == CASE form = 0 -> <<97>> \o W \o <<98>>
+                     [] form = 1 -> W \o <<97>> \o W \o <<98, 32, 99>> \o W
+                     [] form = 2 -> <<97>> \o W \o <<61>> \o W \o <<98>>
+                     [] form = 3 -> <<97, 98>> \o W \o <<35>> \o W \o <<99>>
+                     [] OTHER -> <<97>> \o W
+       IN /\ (w2 = 0 \/ w2 = w \/ form <= 1)
+          /\ v' = <<"pl", line, eq, cm>>
   \/ \E c \in InChunk(0..255, C), t \in {<<83, 78, 87, 69>>, <<45, 43>>, <<68, 39, 34, 58>>, <<48, 49, 50, 51, 52, 53, 54, 55, 56, 57>>} :
        v' = <<"lk", t, c>>
   \/ \E k \in InChunk(0..35, C), a \in 1..Len(WS), b \in 1..Len(WS) :
@@ -285,29 +333,94 @@ VecGC(C) ==
        /\ Keep(z + e + n + p)
        /\ v' = GCV(IF zf THEN ZT[z] \o Seps[p] \o ET[e] \o <<32>> \o NT_[n] ELSE ET[e] \o <<32>> \o NT_[n] \o Seps[p] \o ZT[z], TRUE, FALSE)
   \/ \E a \in InChunk(1..Len(OneTok), C), c \in B2 : v' = GCV(OneTok[a], c, FALSE)
+  \* "space (or comma) separated pieces": every white-space byte and the comma, alone, doubled and around the string
+  \/ \E q \in InChunk(WSB \cup {44}, C), q2 \in WSB \cup {44, 0}, form \in 0..3, w \in B2 :
+       LET Q == IF q2 = 0 THEN <<q>> ELSE <<q, q2>>
+           str == CASE form = 0 -> LLT[1] \o Q \o LLT[11]                                    \* 10 <sep> 33d18'N
+                    [] form = 1 -> Q \o LLT[7] \o Q \o LLT[2] \o Q                          \* <sep> E10 <sep> 200 <sep>
+                    [] form = 2 -> ZT[1] \o Q \o ET[1] \o Q \o NT_[2]                       \* 31n <sep> 500000 <sep> 1000000
+                    [] OTHER -> ET[2] \o Q \o NT_[1] \o Q \o ZT[2] \o Q                      \* 500000.5 <sep> 0 <sep> 31s <sep>
+       IN /\ (q2 = 0 \/ form <= 1 \/ q2 = 44)
+          /\ (~w \/ form <= 1)
+          /\ v' = GCV(str, TRUE, w)
+
+USMetres(zone, northp) ==
+  IF zone = 0 THEN {<<x, y>> : x \in {1200000, 2000000, 2700000}, y \in {1200000, 2000000, 2700000}}
+  ELSE {<<x, y>> : x \in {0, 500000, 900000}, y \in (IF northp THEN {0, 100000, 4000000} ELSE {1000000, 4000000, 9900000})}
+CountOf(m, prec) == IF prec > 0 THEN m * Pow10(prec) ELSE m \div Pow10(-prec)
+\* the calls that GeoCoords.hpp declares equivalent (constructor / Reset, trailing arguments defaulted): via 0..5
+LLB == <<1, 5, 7, 11, 2>>
+VecGCV(C) ==
+  \/ \E a \in InChunk(1..Len(OneTok), C), c \in B2, w \in B2, via \in 1..5 :
+       /\ ViaOK(via, c, w) /\ v' = <<"gcv", OneTok[a], c, w, via>>
+  \/ \E a \in InChunk(1..Len(LLT), C), b \in 1..Len(LLB), c \in B2, w \in B2, via \in 1..5, sw \in B2 :
+       /\ ViaOK(via, c, w)
+       /\ Keep(a + b + via) \/ (a <= 2 /\ b = 1)
+       /\ v' = <<"gcv", IF sw THEN LLT[LLB[b]] \o <<32>> \o LLT[a] ELSE LLT[a] \o <<32>> \o LLT[LLB[b]], c, w, via>>
+  \/ \E z \in InChunk(1..4, C), zf \in B2, c \in B2, w \in B2, via \in 1..5 :
+       /\ ViaOK(via, c, w)
+       /\ v' = <<"gcv", IF zf THEN ZT[z] \o <<32>> \o ET[1] \o <<32>> \o NT_[2] ELSE ET[1] \o <<32>> \o NT_[2] \o <<32>> \o ZT[z], c, w, via>>
+
+\* UTM strings with hemisphere override (np2), by UTMUPSRepresentation (alt = FALSE) or AltUTMUPSRepresentation
+VecUSO(C) ==
+  \E k \in InChunk(0..27, C), northp \in B2, np2 \in B2, alt \in B2 :
+    LET prec == (k % 7) - 5  qe == (k \div 7) % 4  abbrev == (k + (IF alt THEN 1 ELSE 0)) % 2 = 0 IN
+    \/ \E xy \in USMetres(31, northp), qn \in 0..3 :
+         /\ prec <= 0 \/ (qe # 2 /\ qn # 2 /\ xy[2] <= 4000000)
+         /\ IF np2 = northp THEN KeepN(k + qn, 4) ELSE Keep(k + qn + xy[1] \div 100000)
+         /\ v' = <<"uso", 31, northp, 4 * CountOf(xy[1], prec) + qe, 4 * CountOf(xy[2], prec) + qn, prec, abbrev, np2, alt>>
+    \* UPS: the override can only repeat the hemisphere
+    \/ /\ np2 = northp /\ prec <= 0 /\ qe = 1
+       /\ \E xy \in USMetres(0, northp) : v' = <<"uso", 0, northp, 4 * CountOf(xy[1], prec) + qe, 4 * CountOf(xy[2], prec), prec, abbrev, np2, alt>>
+
+\* the undefined position: how it is made (0 default constructor, 1 NaN latitude and longitude) x representation x precision
+VecGN(C) == \E rep \in InChunk(0..7, C), how \in 0..1, prec \in {0, 3, -2} : v' = <<"gn", how, rep, prec>>
+
+\* GeoConvert lines under -z zone (class for the tool stage; not replayed by the driver)
+ZLat == <<<<48>>, <<49, 48>>, <<78, 52, 53, 58, 51, 48>>, <<45, 51, 51, 46, 51>>, <<55, 57, 46, 53>>, <<56, 48>>, <<45, 55, 57>>, <<50, 48, 83>>, <<57, 49>> >>
+ZLon == <<<<57>>, <<49, 48>>, <<49, 50, 58, 51, 48>>, <<54>>, <<53, 46, 53>>, <<49, 51, 46, 53>>, <<51>>, <<48>>, <<49, 100, 51, 48, 39>>, <<49, 87>>, <<50, 48>>,
+          <<45, 49, 55, 48>>, <<69, 55>>, <<120>> >>
+GCZCfg(z) == [tool |-> "GeoConvert", mode |-> "u", prec |-> 0, w |-> FALSE, c |-> TRUE, cd |-> 0, z |-> z, zn |-> "", l |-> FALSE]
+VecGCZ(C) ==
+  \E a \in InChunk(1..Len(ZLat), C), b \in 1..Len(ZLon), z \in {31, 32} :
+     LET s == ZLat[a] \o <<32>> \o ZLon[b] IN v' = <<"gcz", s, z, GCLine(GCZCfg(z), s)>>
 
 \* GeodSolve input lines with the spec's class (for the tool stage; not replayed by the driver)
 GLat == <<<<49, 48>>, <<78, 49, 48>>, <<51, 51, 100, 49, 56, 39, 78>>, <<57, 49>>, <<120>>, <<45, 52, 53, 46, 53>>, <<56, 57, 46, 53>>, <<49, 48, 58, 51, 48>> >>
 GLon == <<<<50, 48>>, <<69, 50, 48>>, <<50, 48, 48>>, <<50, 48, 87>>, <<120>>, <<49, 56, 48>>, <<45, 49, 55, 57, 46, 55, 53>> >>
 GAzi == <<<<48>>, <<57, 48>>, <<45, 57, 48>>, <<50, 55, 48>>, <<52, 53, 46, 50, 53>>, <<78, 49, 48>>, <<49, 48, 69>>, <<120>>, <<49, 56, 48>>, <<45, 49, 56, 48>>, <<51, 54, 49>>, <<49, 48, 58, 51, 48>> >>
 GDist == <<<<48>>, <<48, 46, 48>>, <<49, 48, 48, 48>>, <<49, 101, 54>>, <<120>>, <<110, 97, 110>>, <<45, 48>>, <<49, 47, 50>>, <<49, 48, 100>> >>
-GSCfg(mode) == [tool |-> "GeodSolve", mode |-> mode, prec |-> 2, w |-> FALSE, dms |-> 0]
-GSV(line, mode) == <<"gs", line, mode, GSLine(GSCfg(mode), line)>>
+GSCfg(mode, w, arc) == [tool |-> "GeodSolve", mode |-> mode, prec |-> 2, w |-> w, dms |-> 0, cd |-> 0, arc |-> arc, full |-> FALSE,
+                        lat1 |-> <<49, 48>>, lon1 |-> <<50, 48>>, azi1 |-> <<51, 48>>]
+GSV(line, mode, w, arc) == <<"gs", line, mode, w, arc, GSLine(GSCfg(mode, w, arc), line)>>
+GArc == <<<<48>>, <<48, 46, 48>>, <<49, 100, 51, 48, 39>>, <<49, 58, 51, 48>>, <<57, 48>>, <<49, 101, 50>>, <<120>>, <<110, 97, 110>>, <<45, 48>>, <<49, 47, 50>>, <<49, 48, 100>>,
+          <<49, 48, 78>>, <<49, 48, 69>>, <<49, 48, 48, 48>>, <<48, 58, 48>>, <<48, 100, 48, 39, 48, 34>> >>
 VecGS(C) ==
-  \/ \E a \in InChunk(1..Len(GLat), C), b \in 1..Len(GLon), c \in 1..Len(GAzi), d \in 1..Len(GDist) :
-       /\ Keep(a + b + c + d) \/ (b = 1 /\ d = 1) \/ (a = 1 /\ c = 1)
-       /\ v' = GSV(GLat[a] \o <<32>> \o GLon[b] \o <<32>> \o GAzi[c] \o <<32>> \o GDist[d], "dir")
-  \/ \E a \in InChunk(1..Len(GLat), C), b \in 1..Len(GLon), c \in 1..Len(GLat), d \in 1..Len(GLon) :
-       /\ Keep(a + b + c + d) \/ (a = c /\ b = d)
-       /\ v' = GSV(GLat[a] \o <<32>> \o GLon[b] \o <<9>> \o GLat[c] \o <<32, 32>> \o GLon[d], "inv")
-  \/ \E m \in {"dir", "inv"}, k \in InChunk(0..5, C) :
-       v' = GSV(CASE k = 0 -> <<>> [] k = 1 -> <<49, 48, 32, 50, 48, 32, 51, 48>> [] k = 2 -> <<49, 48, 32, 50, 48, 32, 51, 48, 32, 48, 32, 53>>
-                  [] k = 3 -> <<32>> [] k = 4 -> <<49, 48, 44, 50, 48, 44, 51, 48, 44, 48>> [] OTHER -> <<49, 48>>, m)
+  \/ \E a \in InChunk(1..Len(GLat), C), b \in 1..Len(GLon), c \in 1..Len(GAzi), d \in 1..Len(GDist), w \in B2 :
+       /\ (~w /\ (Keep(a + b + c + d) \/ (b = 1 /\ d = 1) \/ (a = 1 /\ c = 1))) \/ (w /\ (KeepN(a + b + c + d, 3) \/ (a <= 4 /\ b = 1 /\ c = 1 /\ d <= 3)))
+       /\ v' = GSV((IF w THEN GLon[b] \o <<32>> \o GLat[a] ELSE GLat[a] \o <<32>> \o GLon[b]) \o <<32>> \o GAzi[c] \o <<32>> \o GDist[d], "dir", w, FALSE)
+  \/ \E a \in InChunk(1..Len(GLat), C), b \in 1..Len(GLon), c \in 1..Len(GAzi), d \in 1..Len(GArc) :
+       /\ KeepN(a + b + c + d, 2) \/ (a <= 3 /\ b <= 2 /\ c = 1)
+       /\ v' = GSV(GLat[a] \o <<32>> \o GLon[b] \o <<32>> \o GAzi[c] \o <<32>> \o GArc[d], "dir", FALSE, TRUE)
+  \/ \E a \in InChunk(1..Len(GLat), C), b \in 1..Len(GLon), c \in 1..Len(GLat), d \in 1..Len(GLon), w \in B2 :
+       /\ (~w /\ (Keep(a + b + c + d) \/ (a = c /\ b = d))) \/ (w /\ (KeepN(a + b + c + d, 3) \/ (a = c /\ b = d /\ a <= 4)))
+       /\ v' = GSV(IF w THEN GLon[b] \o <<32>> \o GLat[a] \o <<9>> \o GLon[d] \o <<32, 32>> \o GLat[c]
+                         ELSE GLat[a] \o <<32>> \o GLon[b] \o <<9>> \o GLat[c] \o <<32, 32>> \o GLon[d], "inv", w, FALSE)
+  \/ \E m \in {"dir", "inv"}, k \in InChunk(0..5, C), w \in B2, arc \in B2 :
+       /\ ~(arc /\ (w \/ m = "inv"))
+       /\ v' = GSV(CASE k = 0 -> <<>> [] k = 1 -> <<49, 48, 32, 50, 48, 32, 51, 48>> [] k = 2 -> <<49, 48, 32, 50, 48, 32, 51, 48, 32, 48, 32, 53>>
+                         [] k = 3 -> <<32>> [] k = 4 -> <<49, 48, 44, 50, 48, 44, 51, 48, 44, 48>> [] OTHER -> <<49, 48>>, m, w, arc)
+  \* line mode (-L lat1 lon1 azi1): one distance (or arc length) per line
+  \/ \E d \in InChunk(1..Len(GDist), C), pad \in 1..3 :
+       v' = GSV((IF pad = 2 THEN <<32>> ELSE <<>>) \o GDist[d] \o (IF pad = 3 THEN <<9>> ELSE <<>>), "line", FALSE, FALSE)
+  \/ \E d \in InChunk(1..Len(GArc), C), pad \in 1..3 :
+       v' = GSV((IF pad = 2 THEN <<32>> ELSE <<>>) \o GArc[d] \o (IF pad = 3 THEN <<9>> ELSE <<>>), "line", FALSE, TRUE)
+  \* one item too many (every distance / arc length token followed by another one)
+  \/ \E d \in InChunk(1..Len(GDist), C), e \in {1, 3} : v' = GSV(GDist[d] \o <<32>> \o GDist[e], "line", FALSE, FALSE)
+  \/ \E d \in InChunk(1..Len(GArc), C), e \in {1, 3} : v' = GSV(GArc[d] \o <<9>> \o GArc[e], "line", FALSE, TRUE)
+  \/ \E k \in InChunk(0..4, C), arc \in B2 :
+       v' = GSV(CASE k = 0 -> <<>> [] k = 1 -> <<49, 48, 48, 48, 32, 53>> [] k = 2 -> <<32>> [] k = 3 -> <<49, 48, 32, 50, 48, 32, 51, 48, 32, 48>> [] OTHER -> <<48, 44, 48>>, "line", FALSE, arc)
 
-USMetres(zone, northp) ==
-  IF zone = 0 THEN {<<x, y>> : x \in {1200000, 2000000, 2700000}, y \in {1200000, 2000000, 2700000}}
-  ELSE {<<x, y>> : x \in {0, 500000, 900000}, y \in (IF northp THEN {0, 100000, 4000000} ELSE {1000000, 4000000, 9900000})}
-CountOf(m, prec) == IF prec > 0 THEN m * Pow10(prec) ELSE m \div Pow10(-prec)
 VecUS(C) ==
   \E k \in InChunk(0..35, C), zone \in {0, 31}, northp \in B2, abbrev \in B2 :
     LET prec == (k % 9) - 5  qe == (k \div 9) % 4 IN
@@ -327,7 +440,7 @@ Next ==
           [] Part = "uni" -> VecUni(v[2]) \/ VecLL(v[2])
           [] Part = "enc" -> VecEnc(v[2])
           [] Part = "num" -> VecNum(v[2])
-          [] Part = "gc" -> VecGC(v[2]) \/ VecUS(v[2]) \/ VecGS(v[2])
+          [] Part = "gc" -> VecGC(v[2]) \/ VecUS(v[2]) \/ VecGS(v[2]) \/ VecGCV(v[2]) \/ VecUSO(v[2]) \/ VecGCZ(v[2]) \/ VecGN(v[2])
 
 (* ------------------------------ model invariants ------------------------- *)
 WellFormed(r) ==
@@ -388,6 +501,33 @@ NumInv ==
        /\ (r[1] => r[2] # <<>> /\ Trim(r[2]) = r[2] /\ Trim(r[3]) = r[3])
        /\ (~r[1] => r[2] = <<>> /\ r[3] = <<>>)
 
+\* the other val<T> and the numeric overloads of DMS
+OvlInv ==
+  /\ v[1] = "vb" =>
+       LET r == ValBool(v[2]) IN
+       /\ r[1] \in {"bool", "throw", "any"}
+       /\ ValBool(<<32>> \o v[2] \o <<9>>) = r /\ ValBool(UpperS(v[2])) = r         \* white space and case are ignored
+  /\ v[1] = "vi" =>
+       LET r == ValInt(v[2])  q == Val(v[2]) IN
+       /\ r[1] \in {"int", "big", "throw"}
+       /\ ValInt(<<32>> \o v[2] \o <<10>>) = r
+       \* an integer is also a real number with the same value
+       /\ (r[1] = "int" => q[1] = "num" /\ q[5] /\ q[2] = r[2] /\ q[4] >= 0 /\ q[3] * Pow10(q[4]) = r[3])
+  /\ v[1] = "vs" => ValStr(ValStr(v[2])) = ValStr(v[2]) /\ ValStr(v[2]) = Trim(v[2])
+  /\ v[1] = "dn" =>
+       LET dneg == v[3]  D == v[4]  mneg == v[5]  M == v[6]  sneg == v[7]  S == v[8] IN
+       \* the number triple and the string d:m:s name the same angle
+       (mneg = dneg /\ sneg = dneg /\ M < 60 /\ S < 6000) =>
+          LET a == DecodeNumSame(dneg, D, M, S)  r == Decode(ColonStr(dneg, D, M, S)) IN
+          /\ r[1] = "fin" /\ r[5] /\ r[3] = a[2] /\ r[4] = a[3] /\ (r[8] \/ r[2] = dneg)
+          /\ (D <= 4 => DecodeNum(dneg, D, mneg, M, sneg, S) = <<IF a[2] = 0 /\ a[3] = 0 THEN FALSE ELSE dneg, a[2], a[3]>>)
+  /\ v[1] = "sp" =>
+       \* the textbook split satisfies the law, and so does the one a carry produces
+       LET neg == v[3]  D == v[4]  M == v[5]  S == v[6]  a == DecodeNumSame(neg, D, M, S) IN
+       /\ SplitOK(a[1], a[2], a[3], D, M, S * UnitsPerCs, neg, neg, neg, 0)
+       /\ (S = 0 /\ M > 0 => SplitOK(a[1], a[2], a[3], D, M - 1, UnitsPerMin, neg, neg, neg, 0))
+       /\ ~SplitOK(a[1], a[2], a[3], D, M, S * UnitsPerCs + 2, neg, neg, neg, 1)
+
 Commas(s) == [i \in 1..Len(s) |-> IF s[i] \in {32, 9} THEN 44 ELSE s[i]]
 GcInv ==
   /\ v[1] = "gc" =>
@@ -404,6 +544,15 @@ GcInv ==
          IN /\ r[1] = "utm" /\ r[2] = v[2] /\ r[3] = v[3]
             /\ v[6] <= 0 => /\ 4 * r[4][1] - v[4] * u <= 2 * u /\ v[4] * u - 4 * r[4][1] <= 2 * u
                             /\ 4 * r[5][1] - v[5] * u <= 2 * u /\ v[5] * u - 4 * r[5][1] <= 2 * u
+
+GcvInv ==
+  /\ v[1] = "gcv" => ViaOK(v[5], v[3], v[4])
+  \* the spec's Reset does not reject a representation of the undefined position
+  /\ v[1] = "gn" => Reset(InvRep(v[3]), TRUE, FALSE)[1] \in {"any", "nanpos"}
+  /\ v[1] = "uso" =>
+       \* every admissible string is a legal UTM/UPS string of the same zone in the convention asked for
+       \A s \in UTMUPSStrOverride(v[2], v[3], v[8], v[7], v[4], v[5], v[6]) :
+         LET r == Reset(s, TRUE, FALSE) IN r[1] = "utm" /\ r[2] = v[2] /\ r[3] = v[8]
 
 Emit == v[1] \notin {"root", "chunk"} => PrintT(ToJson(v))
 =============================================================================
